@@ -67,6 +67,10 @@ def cases(tier, rng):
 def run(case, ctx, rng):
     globals()['run_' + case['k'].replace('-', '_')](case, ctx, rng)
 
+def h2_present():
+    import crysp.blake as BK
+    return bool(getattr(BK, '_verif_on', False)) and hasattr(BK, '_verif_emit')
+
 def with_trace(f):
     """run f with hook H2 collecting the per-block (counter, flag) events"""
     import crysp.blake as BK
@@ -103,7 +107,10 @@ def run_blake(case, ctx, rng):
     ctx.eq('blake==reference', got, want, **det)
     if not is_exc(got):
         ctx.eq('digest-length', len(got), size // 8, **det)
-        ctx.eq('H2:counter-trace', [e[2] for e in ev], want_t, **det)
+        if h2_present():
+            ctx.eq('H2:counter-trace', [e[2] for e in ev], want_t, **det)
+        else:
+            ctx.notes['hook H2 absent: trace not observed'] += 1
 
 def b2params(rng, case, size):
     """returns (crysp kwargs, hashlib kwargs, key)"""
@@ -162,6 +169,9 @@ def run_blake2(case, ctx, rng):
     if not is_exc(got):
         ctx.eq('digest-length', len(got), ck.get('outlen', B // 2), **det)
         nb = max(1, -(-len(Min) // B))
+        if not h2_present():
+            ctx.notes['hook H2 absent: trace not observed'] += 1
+            return
         ctx.eq('H2:counter-trace', [e[2] for e in ev], [min(len(Min), (i + 1) * B) for i in range(nb)], **det)
         ctx.eq('H2:final-flag-trace', [1 if e[3] else 0 for e in ev], [0] * (nb - 1) + [1], **det)
         if ev:
@@ -207,7 +217,7 @@ def run_preset_blake(case, ctx, rng):
     want = rblake.blake(size, blocks + t, salt, start_bits=P, trace=tr)
     det = dict(size=size, preset=P, nblk=nblk, tail=tail)
     ctx.eq('counter-preset:blake', got, want, **det)
-    if not is_exc(got):
+    if not is_exc(got) and h2_present():
         ctx.eq('H2:counter-trace', [e[2] for e in ev], tr, **det)
 
 def run_preset_blake2(case, ctx, rng):
@@ -227,7 +237,7 @@ def run_preset_blake2(case, ctx, rng):
     want = rb2.blake2(big, blocks + t, start_bytes=P, trace=tr)
     det = dict(size=size, preset=P, nblk=nblk, tail=tail)
     ctx.eq('counter-preset:blake2', got, want, **det)
-    if not is_exc(got):
+    if not is_exc(got) and h2_present():
         ctx.eq('H2:counter-trace', [e[2] for e in ev], [x[0] for x in tr], **det)
         ctx.eq('H2:final-flag-trace', [1 if e[3] else 0 for e in ev], [1 if x[1] else 0 for x in tr], **det)
 
